@@ -99,6 +99,14 @@ SHAPES = [
     ("inst/try_star", H, "    def m(self):\n        try:\n            pass\n        except* ValueError:\n            self.x = Target()", 1, ["Target"]),
     ("inst/while_else", H, "    def m(self, v):\n        while v:\n            v -= 1\n        else:\n            return Target()", 1, ["Target"]),
     ("inst/elif3", H, "    def m(self, v):\n        if v == 1:\n            pass\n        elif v == 2:\n            pass\n        elif v == 3:\n            return Target()", 1, ["Target"]),
+    # --- shapes reported by a fourth-round reviewer of the unchanged tree ------------------------------------------------------------------------------
+    ("hint/generic_in_union", H, "    field: Target | List[Other] = None", 2, ["Other", "Target"]),
+    ("hint/parenthesised", H, "    field: (Target | Other) = None", 2, ["Other", "Target"]),
+    ("hint/parenthesised_single", H, "    field: (Target) = None", 1, ["Target"]),
+    ("base/subscripted_and_plain", H + "from typing import Generic, TypeVar\nT = TypeVar(\"T\")\n", "BASE=Generic[T], Target\n    x = 1", 1, ["Target"]),
+    ("base/subscripted_project_class", H, "BASE=Box[Other], Target\n    x = 1", 3, ["Box", "Other", "Target"]),
+    ("inst/tuple_subscript", H, "    def m(self, v):\n        return v[0, Target()]", 1, ["Target"]),
+    ("inst/expression_list_statement", H, "    def m(self):\n        1, Target()", 1, ["Target"]),
     # --- built-ins are not couplings (default options) ---------------------------------------------------------------------------------------------
     ("builtin/base_oserror", "", "BASE=OSError\n    x = 1", 0, []),
     ("builtin/base_exception_pair", "", "BASE=LookupError, KeyError\n    x = 1", 0, []),
